@@ -50,18 +50,6 @@ def lookup (extra : List CStr) (p : CStr) : Option Kind :=
 
 def whoObj : String := "/c15/obj"
 
-/-- `check_valid_path (path, current_object, op, w)` with the master following `pol` -/
-def ask (pol : Policy) (w : Bool) (path : CStr) (op : String) : List Ev × Option CStr :=
-  let v := pol.verdict w path
-  ([.valid w path whoObj op v], checkValidPath true v path)
-
-/-- efuns that make one libc call on the approved path -/
-def single (pol : Policy) (w : Bool) (op fn : String) (fw : Bool) (a : CStr) : List Ev :=
-  let (e, r) := ask pol w a op
-  e ++ match r with
-    | none => []
-    | some p => [.fs fn fw p]
-
 /-- part after the last '/' (`cp = strrchr (from, '/'); cp ? cp + 1 : from`) -/
 def baseName (p : CStr) : CStr := (p.reverse.takeWhile (· ≠ '/')).reverse
 
@@ -146,6 +134,45 @@ def getDirFs (ex : List CStr) (P : CStr) (flags1 : Bool := false) : List Ev :=
   | some _ =>
     if !cut ∧ temp ≠ dot then [.fs "stat" false temp]
     else [.fs "stat" false temp, .fs "opendir" false temp] ++ entryStats ex flags1 temp none
+
+def masterObj : String := "/c15/master"
+
+/-- one-libc-call efuns as a NESTED call by the master (the master asks itself and answers 1) -/
+def nestedSingle (w : Bool) (op fn : String) (fw : Bool) (a : CStr) : List NEv :=
+  .valid w a true op .ok :: match checkValidPath true .ok a with
+    | none => []
+    | some p => [.fs fn fw p]
+
+/-- what the file efun `g (p)` does when the MASTER calls it from inside valid_read / valid_write (re-entrant
+    master): the efuns a master typically uses there — consult an access list (`read_file`, `file_size`,
+    `tail`), log the request (`write_file`).  The inner consultation is answered with 1 and is not nested again. -/
+def nestedEvents (g : String) (p : CStr) : List NEv :=
+  match g with
+  | "read_file" => nestedSingle false "read_file" "open" false p
+  | "file_size" => nestedSingle false "file_size" "stat" false p
+  | "write_file" => nestedSingle true "write_file" "fopen" true p
+  | "tail" => nestedSingle false "tail" "fopen" false p
+  | _ => [.note s!"badnested {g}"]
+
+/-- the nested call a re-entrant master makes before it answers -/
+def nestPrefix : Policy → List Ev
+  | .nested g p _ => [.nest g masterObj [p] (nestedEvents g p)]
+  | _ => []
+
+/-- `check_valid_path (path, current_object, op, w)` with the master following `pol`; a re-entrant master first
+    makes its own efun call (`Ev.nest`), then answers -/
+def askEv (pol : Policy) (w : Bool) (path : CStr) (op : String) : List Ev :=
+  nestPrefix pol ++ [.valid w path whoObj op (pol.verdict w path)]
+
+def ask (pol : Policy) (w : Bool) (path : CStr) (op : String) : List Ev × Option CStr :=
+  (askEv pol w path op, checkValidPath true (pol.verdict w path) path)
+
+/-- efuns that make one libc call on the approved path -/
+def single (pol : Policy) (w : Bool) (op fn : String) (fw : Bool) (a : CStr) : List Ev :=
+  let (e, r) := ask pol w a op
+  e ++ match r with
+    | none => []
+    | some p => [.fs fn fw p]
 
 def getDir (pol : Policy) (ex : List CStr) (a : CStr) (flags1 : Bool := false) : List Ev :=
   let (e, r) := ask pol false a "stat"
@@ -253,6 +280,7 @@ inductive EdCmd where
   | a (text : CStr)          -- `a`, one line of text, `.`
   | e (arg : CStr) | E (arg : CStr) | f (arg : CStr) | r (arg : CStr)
   | w (arg : CStr) | W (arg : CStr) | x | q | Q
+  | D (name : CStr)          -- the user goes net-dead: save_ed_buffer, the master answers `name`
   deriving Repr, DecidableEq
 
 structure EdSt where
@@ -356,6 +384,11 @@ def edStep (pol : Policy) (ex : List CStr) (st : EdSt) (c : EdCmd) : List Ev × 
      match r with
      | none => st
      | some p => if edWritable st ex p then { st with active := false, files := (p, st.nlines) :: st.files } else st)
+  | .D name =>
+    -- save_ed_buffer: get_save_file_name (P_FNAME) → one leading slash removed; written only when that is a
+    -- legal path (repaired code; before, "/../x" or "//tmp/x" were written); the session is over either way
+    let p := stripOneSlash name
+    (.edsave st.fname name :: (if legalPath p then [.fs "fopen" true p] else []), { st with active := false })
   | .q => ([], if st.changed then st else { st with active := false })
   | .Q => ([], { st with active := false })
 
@@ -365,6 +398,7 @@ def EdCmd.callArgs : EdCmd → List CStr
   | .e y => [str "e", y] | .E y => [str "E", y] | .f y => [str "f", y] | .r y => [str "r", y]
   | .w y => [str "w", y] | .W y => [str "W", y]
   | .x => [str "x", []] | .q => [str "q", []] | .Q => [str "Q", []]
+  | .D y => [str "D", y]
 
 /-- is the command executed?  `ed ()` on an active session is an error before anything happens; editor
     commands need a session -/
